@@ -220,6 +220,37 @@ def negative(ctx, case, gt, sp):
     return done
 
 
+def dup_uuid_cases(ctx, case, gt, sp):
+    """'Each UUID denotes one object': a file that reuses one UUID for two
+    nodes is either rejected or loads to an IR in which no two attached
+    objects share a UUID and all references are still identical."""
+    from .c17 import structural_faults
+    rnd = case.rnd
+    faults = [(n, e) for n, e in structural_faults(rnd, gt, sp)
+              if n.startswith("dup-uuid")]
+    rnd.shuffle(faults)
+    for name, edit in faults[:3]:
+        raw = foreign.file_for(gt, sp, edit)
+        ctx.count("cases")
+        ctx.count("dup_uuid:cases")
+        ctx.seen("negative_shapes", name)
+        ctx.seen("nontrivial", (name, raw))
+        case.ops = [{"spec": sp, "fault": name}]
+        try:
+            ir = irio.load(gt, raw)
+        except Exception as e:
+            if type(e).__name__ == "OpTimeout":
+                raise
+            ctx.count("dup_uuid:rejected")
+            continue
+        ctx.count("dup_uuid:accepted")
+        try:
+            positive(ctx, gt, ir, sp)
+        except Discrepancy as d:
+            raise Discrepancy(d.prop, d.mechanism + ":" + name,
+                              "file with %s: %s" % (name, d.what), d.detail)
+
+
 def run(ctx):
     import gtirb
 
@@ -245,6 +276,7 @@ def run(ctx):
         if after > before:
             ctx.seen("nontrivial", gspec.normalize(sp))
         negative(ctx, case, gtirb, sp)
+        dup_uuid_cases(ctx, case, gtirb, sp)
         if case.index % 151 == 0:
             ctx.sample({"summary": gspec.summary(sp),
                         "references_checked": after - before})
